@@ -141,6 +141,29 @@ def gen_cases(draw):
             'sink': draw(st.booleans())}
 
 
+@st.composite
+def long_cases(draw):
+    """Strings around PyYAML's 1024-character limits, as keys and as values."""
+    def long_string():
+        unit = draw(st.sampled_from(['k', 'k', 'é', '"', ' x', '日', '\\']))
+        n = draw(st.sampled_from([1018, 1019, 1020, 1021, 1022, 1023, 1024, 1025, 1026,
+                                  2048, 4100]))
+        n = n // draw(st.sampled_from([1, 1, 2, 6]))
+        return (unit * n)[:n].strip() or 'k'
+    leaf = draw(st.sampled_from([['int', 1], ['str', 'v'], ['none'], ['list', []]]))
+    shape = draw(st.integers(0, 3))
+    if shape == 0:
+        v = ['dict', [[['str', long_string()], leaf]]]
+    elif shape == 1:
+        v = ['dict', [[['str', 'a'], ['str', long_string()]], [['str', long_string()], leaf]]]
+    elif shape == 2:
+        v = ['list', [['str', long_string()], ['dict', [[['str', long_string()], leaf]]]]]
+    else:
+        v = ['dict', [[['str', 'outer'], ['dict', [[['str', long_string()], ['str', long_string()]]]]]]]
+    return {'plain': v, 'indent': draw(st.sampled_from(INDENTS)), 'ascii': draw(st.booleans()),
+            'sink': draw(st.booleans())}
+
+
 def to_cmp(p):
     """projection -> structure comparable with jsonv output."""
     if isinstance(p, dict):
@@ -358,7 +381,7 @@ def check(case, ctx):
         try:
             back = _plain_load(text)
         except Exception as e:
-            ctx.finding('roundtrip', 'load_of_json_raises:' + type(e).__name__,
+            ctx.finding('roundtrip', load_failure_signature(e, jproj, asc),
                         'loading the JSON text raised %s: %s\n  text: %r\n  %s'
                         % (type(e).__name__, str(e)[:300], text, desc()))
             return
@@ -385,13 +408,36 @@ def check(case, ctx):
     try:
         back = m.load(text)
     except Exception as e:
-        ctx.finding('roundtrip', 'load_of_json_raises:' + type(e).__name__,
+        ctx.finding('roundtrip', load_failure_signature(e, jproj, asc),
                     'loading the JSON text raised %s: %s\n  text: %r\n  %s'
                     % (type(e).__name__, str(e)[:300], text, desc()))
         return
     if not strict_eq(back, value):
         ctx.finding('roundtrip', 'model_roundtrip_differs',
                     'load(dumps_json(v)) = %s\n  text: %r\n  %s' % (canon(back), text, desc()))
+
+
+def keys_of(p, out):
+    if isinstance(p, dict):
+        for k, v in p.items():
+            if isinstance(k, str):
+                out.append(k)
+            keys_of(v, out)
+    elif isinstance(p, list):
+        for x in p:
+            keys_of(x, out)
+    return out
+
+
+def load_failure_signature(e, jproj, asc):
+    """Signature of a failed load of the JSON text. YAML limits implicit keys
+    to 1024 characters (PyYAML: from the opening quote to the ':'), so a JSON
+    object with a longer key is not loadable: known finding F31, identified by
+    the presence of such a key and a parse error."""
+    if isinstance(e, yaml.YAMLError) and any(
+            len(json.dumps(k, ensure_ascii=asc)) > 1024 for k in keys_of(jproj, [])):
+        return 'load_of_json_raises:key_longer_than_1024_characters'
+    return 'load_of_json_raises:' + type(e).__name__
 
 
 def _all_finite(p):
@@ -423,4 +469,5 @@ def phases(tier):
                   'x 10 indent settings x 2 ensure_ascii settings, and every tree with '
                   '%d nodes x option pairs %s' % (full, few, fewopts)),
         HypPhase('generated_values', gen_cases(), 300 if quick else 5000),
+        HypPhase('long_strings', long_cases(), 25 if quick else 400),
     ]
